@@ -105,6 +105,11 @@ impl<F: Float> ParamGuard for FastIcaParams<F> {
     fn check_ref(&self) -> Result<&Self::Checked, Self::Error> {
         if self.0.tol < F::zero() {
             Err(FastIcaError::InvalidTolerance(self.0.tol.to_f32().unwrap()))
+        } else if matches!(self.0.gfunc, GFunc::Logcosh(alpha) if !(1.0..=2.0).contains(&alpha)) {
+            // documented range of the `alpha` of `GFunc::Logcosh`: between 1 and 2 inclusive
+            Err(FastIcaError::InvalidValue(
+                "alpha must be between 1 and 2 inclusive".to_string(),
+            ))
         } else {
             Ok(&self.0)
         }
